@@ -1107,11 +1107,13 @@ func c42KeygenHash(rt *rapid.T, c *ev.Collector, g *c42Gen, univ []string, dir, 
 	}
 	var ents []ent
 	var sb strings.Builder
-	for li := 0; li < rapid.IntRange(1, 3).Draw(rt, "hlines"); li++ {
+	nl := rapid.IntRange(1, 3).Draw(rt, "hlines")
+	for li := 0; li < nl; li++ {
 		key := rapid.SampledFrom(c42HostKeys).Draw(rt, "hkey")
 		pk := g.pool.pub(key)
 		var names []string
-		for i := 0; i < rapid.IntRange(1, 3).Draw(rt, "hnames"); i++ {
+		nn := rapid.IntRange(1, 3).Draw(rt, "hnames")
+		for i := 0; i < nn; i++ {
 			hp := ref.HostPort{Host: rapid.SampledFrom(univ).Draw(rt, "hhost"), Port: rapid.SampledFrom(c42Ports).Draw(rt, "hport")}
 			names = append(names, hp.Name())
 			ents = append(ents, ent{hp, key})
